@@ -78,10 +78,11 @@ def main():
             thorough_cmd="./check %s --tier thorough" % pid,
             evidence_file="evidence/%s.json" % pid,
             replay_cmd_template="./check %s --replay {path}" % pid,
-            engine="rapidcheck-harness" + ("+libfuzzer" if pid == "C16" else "") + ("+tsan-child" if pid == "C12" else ""),
+            engine="rapidcheck-harness" + ("+libfuzzer" if pid != "C12" else "") + ("+tsan-child" if pid == "C12" else ""),
             level_claimed=dict(category="exploration", text=text, design_ref="DESIGN.md §3 %s" % pid),
             level_note=note,
-            technique=tech))
+            technique=tech + ("" if pid in ("C12", "C16") else "; the same descriptors and oracle are also driven by coverage-guided fuzzing (libFuzzer over the instrumented library: corpus replay in the quick tier, campaigns in the thorough tier)"
+                              + ("; a second libFuzzer target feeds byte-level limb data to the same oracle" if pid == "C05" else ""))))
     man = dict(
         version=1,
         setup_cmd="python3 engine/setup.py",
@@ -91,8 +92,8 @@ def main():
         engines=[
             dict(name="rapidcheck-harness", path="engine/harness.cpp", serves_properties=sorted(registered["claimed"]),
                  kind_free_text="rapidcheck generators over compact integer case descriptors (bulk data expanded deterministically), shrinking, exhaustive enumeration mode for finite strata, fork-based shrinking of crashing cases, replay files that bypass the library"),
-            dict(name="libfuzzer", path="fuzz/api_program.cpp", serves_properties=["C16"],
-                 kind_free_text="libFuzzer + ASan + UBSan subset; FuzzedDataProvider decodes bytes into a typed API program executed against the exact interpreter"),
+            dict(name="libfuzzer", path="fuzz/descriptor.cpp", serves_properties=sorted(p for p in registered["claimed"] if p != "C12"),
+                 kind_free_text="libFuzzer + ASan + UBSan subset over the fuzzer-no-link instrumented library. fuzz/descriptor.cpp: FuzzedDataProvider decodes bytes into an in-domain case descriptor of the property's own subs (same run function and oracle as under rapidcheck), coverage feedback from the library selects which descriptors are kept and mutated; fuzz/api_program.cpp (C16): bytes -> typed API program executed against the exact interpreter; fuzz/normalize.cpp (C05): byte-level limb data with value profile. Committed coverage-minimised corpora under fuzz/corpus/ are replayed in the quick tier"),
             dict(name="tsan-child", path="props/c12_child.cpp", serves_properties=["C12"],
                  kind_free_text="fresh ThreadSanitizer process per generated thread program"),
         ],
